@@ -9,6 +9,8 @@ from .rt_common import compare_plotfile, pf_expected, taste_ok, tree_digest
 def make_input(p, wd, name="plt_in", names=None, payload="coded", specials=True):
     nd = p["ndims"]
     nf = p.get("nf", 3)
+    if names is None and p.get("names"):
+        names = list(p["names"])        # (repeated names, names that look like the reader's own renaming: a, a_2, a)
     names = names or [["density", "temp", "Y(H2)", "Y(O2)", "x_velocity", "pressure", "mag_vort", "Y(N2)"][i % 8] +
                       ("" if i < 8 else f"_{i}") for i in range(nf)]
     n0 = tuple(p.get("n0") or ((16, 16, 16) if nd == 3 else (32, 16)))
